@@ -127,7 +127,8 @@ def classify(kind, dep, ncols, pkts):
     if kind == "prepare":
         if n and pkts[0][:1] == b"\x00" and len(pkts[0]) == 12:
             np_ = struct.unpack_from("<H", pkts[0], 7)[0]
-            out.append("p%d" % np_)
+            # COM_STMT_PREPARE_OK: status 0, stmt id, columns, params, one reserved byte that is 0, warnings
+            out.append("p%d" % np_ if pkts[0][9:10] == b"\x00" else "p?filler")
             i = 1
     elif kind in ("query", "execute"):
         if n and pkts[0][:1] not in (b"\xff", b"\x00", b"\xfe"):
@@ -142,7 +143,14 @@ def classify(kind, dep, ncols, pkts):
         if b == b"\xff":
             out.append("err:" + err_class(p))
         elif state == "simple":
-            out.append("ok" if b == b"\x00" else "?" + p[:4].hex())
+            if b == b"\x00":
+                try:
+                    d0 = parse_ok(p)
+                    out.append("ok" if (d0["status"], d0["warnings"], d0["affected"], d0["last_id"]) == (0, 0, 0, 0) else "ok?%r" % (d0,))
+                except Exception:  # noqa
+                    out.append("ok?malformed")
+            else:
+                out.append("?" + p[:4].hex())
         elif state == "meta":
             if b == b"\x03" and p[:4] == b"\x03def":
                 out.append("cd")
@@ -154,7 +162,7 @@ def classify(kind, dep, ncols, pkts):
                     out.append("eofm")
                     state = "rows" if kind != "prepare" else "done"
                 else:
-                    out.append("t%d" % fl)
+                    out.append("t%d" % fl if st & ~0xC0 == 0 else "t?status%x" % st)
                     state = "done"
             elif b == b"\x00" and len(p) >= 7 and kind in ("query", "execute") and seen_cd == 0 and not out:
                 out.append("ok")
@@ -166,7 +174,7 @@ def classify(kind, dep, ncols, pkts):
             # OK-as-EOF carries the affected-row count as a length-encoded integer: 9 bytes and more from 251 rows on
             if b == b"\xfe" and (dep or len(p) < 9):
                 st = (parse_ok(p) if dep else parse_eof(p))["status"]
-                out.append("t%d" % (st & 0xC0))
+                out.append("t%d" % (st & 0xC0) if st & ~0xC0 == 0 else "t?status%x" % st)
                 state = "done"
             else:
                 try:
